@@ -118,6 +118,8 @@ def _policy(case, res, out, h, fields, model, info, what, cap_applies=True, smal
     hmin, hmax, cap, cont = case["hmin"], case["hmax"], case["cap"], case["cont"]
     too_large = model.excess(n_large, hmax) > 0  # not even the largest allowed candidate at max height fits
     too_small = model.excess(n_small, hmin) < 0  # even the smallest candidate at min height is more than enough
+    if not smallest_policy:
+        too_small = False  # RowWise has no 'smallest candidate' fallback: any design or ValueError is within the statement
     near = min(abs(math.log(q / q_large)), abs(math.log(q / q_small))) < 0.05
     if isinstance(res, Exception):
         if not isinstance(res, ValueError):
